@@ -140,7 +140,7 @@ impl RequestHandler<Rename> for RenameHandler {
         let (def_ty, def) = (def_ty.clone(), def.clone());
         match def_ty {
             DefinitionType::Filename(_) => Ok(None),
-            DefinitionType::Symbol(_) => {
+            _ => {
                 if def.location.is_some() {
                     let slice = |dl: &DefinitionLocation| {
                         let sl = codegen.analysis().look_up(dl.span);
